@@ -148,7 +148,14 @@ def validate(ctx, mods: list[str], ex: Exploration, per_fn: int = 60) -> None:
         for sn, site in item.get("sites", {}).items():
             # the site expression, compiled from /repo's current source, is the Python original
             import sites as sitemod
-            fd, seg = sitemod.build(translate_spec_path(site["file"]).read_text(), sn, site, f"{site['file']}::{sn}")
+            try:
+                fd, seg = sitemod.build(translate_spec_path(site["file"]).read_text(), sn, site, f"{site['file']}::{sn}")
+            except sitemod.SiteError as e:
+                # the site no longer has the shape the extraction was written for: the tie is broken (already reported by
+                # the regeneration step); nothing to execute for this site
+                ex.findings.append(Finding(kind="model", key=f"translator:{m}.{sn}",
+                                           what=f"site extraction failed: {e}", case={"module": m, "site": sn}))
+                continue
             # names the source module itself can see (imported helpers such as `trace_nearest`, `interp_linear`, `exp`)
             for k_, v_ in vars(importlib.import_module(site["file"][:-3].replace("/", "."))).items():
                 senv.setdefault(k_, v_)
